@@ -70,7 +70,7 @@ func runC11(a *args) error {
 		present := []uuid.UUID{}
 		for i := 0; i < rounds; i++ {
 			forced := i%2 == 0
-			op := []string{"insert-new", "insert-dup", "remove-absent", "update"}[r.intn(4)]
+			op := []string{"insert-new", "insert-dup", "remove-absent", "update", "update-absent", "remove-present"}[r.intn(6)]
 			if len(present) == 0 {
 				op = "insert-new"
 			}
@@ -139,11 +139,38 @@ func runC11(a *args) error {
 					id = present[r.intn(len(present))]
 				}
 				err = ds.Update(ctx, id, []float32{7, 7}, nil)
+			case "update-absent":
+				err = ds.Update(ctx, id, []float32{7, 7}, nil)
+			case "remove-present":
+				k := r.intn(len(present))
+				id = present[k]
+				err = ds.Remove(ctx, id)
+				if err == nil {
+					present = append(present[:k], present[k+1:]...)
+				}
 			}
 			cancel()
+			// an acknowledgement is truthful: what was acknowledged is what the index now holds
+			if err == nil {
+				v, gerr := idx.Get(id)
+				bad := ""
+				switch op {
+				case "update", "update-absent":
+					if gerr != nil || len(v) != 2 || v[0] != 7 {
+						bad = fmt.Sprintf("%s of %s was acknowledged, the index holds %v (err %v)", op, id, v, gerr)
+					}
+				case "remove-present", "remove-absent":
+					if gerr == nil {
+						bad = fmt.Sprintf("%s of %s was acknowledged, the index still holds the item", op, id)
+					}
+				}
+				if bad != "" {
+					st.ImplFailures = append(st.ImplFailures, implFailure{Case: i, What: bad, Key: "acknowledged-not-applied:" + op, Input: map[string]interface{}{"op": op, "forced": forced}})
+				}
+			}
 			storage.VerifPauseHook = nil
 			obs, _ := errCode(err)
-			want := map[string]int{"insert-new": 0, "insert-dup": 1, "remove-absent": 2, "update": 0}[op]
+			want := map[string]int{"insert-new": 0, "insert-dup": 1, "remove-absent": 2, "update": 0, "update-absent": 2, "remove-present": 0}[op]
 			kind := "plain"
 			if forced {
 				kind = "forced-apply-first"
